@@ -702,7 +702,7 @@ func main() {
 		out := &shardOut{Counters: map[string]int64{}}
 		per := 20 * time.Second
 		if tier == "thorough" {
-			per = 3 * time.Minute
+			per = 2 * time.Minute
 		}
 		for si, sc := range scen {
 			if si%n != i {
@@ -722,7 +722,7 @@ func main() {
 			}
 			if tier == "thorough" {
 				b++
-				if sc.Fam == "duplex" || sc.Fam == "window" {
+				if sc.Fam == "duplex" {
 					b++
 				}
 			}
